@@ -32,7 +32,10 @@ type switchboard struct {
 
 	conns      sync.Map
 	connsCount uint32
-	randPool   sync.Pool
+	// addConnM serialises addConn so that a connection id is published through
+	// connsCount only after the connection has been stored under that id
+	addConnM sync.Mutex
+	randPool sync.Pool
 
 	broken uint32
 }
@@ -54,8 +57,11 @@ func makeSwitchboard(sesh *Session) *switchboard {
 var errBrokenSwitchboard = errors.New("the switchboard is broken")
 
 func (sb *switchboard) addConn(conn net.Conn) {
-	connId := atomic.AddUint32(&sb.connsCount, 1) - 1
+	sb.addConnM.Lock()
+	connId := atomic.LoadUint32(&sb.connsCount)
 	sb.conns.Store(connId, conn)
+	atomic.StoreUint32(&sb.connsCount, connId+1)
+	sb.addConnM.Unlock()
 	go sb.deplex(conn)
 }
 
